@@ -32,6 +32,10 @@ const CANCEL2: [&str; 16] = ["m/ft", "km/mi", "in/yd", "N*m/J", "Pa*m^2/N", "J/N
 /// that unit, not nothing (`m/m^2` is m^-1).
 const SELF_PARTLY: [&str; 12] = ["m/m^2", "s/s^2", "kg*m/m^2", "m^2/m^3", "s^2/s^3", "m/m^3", "s*m/s^2", "A*s/s^2", "m^2/m", "kg/kg^2", "ft/ft^2", "N*m/m^2"];
 
+/// One unit name cancelling against itself completely, spelled with and without written powers.
+/// (Within a unit expression everything after a `/` is in the denominator until the next `/`.)
+const SELF_FULLY: [&str; 14] = ["m/m", "m/m^1", "m^1/m", "m^1/m^1", "m*m^-1", "m^-1*m", "m^2/m^2", "m^2/m*m", "s/s^1", "s^-2*s^2", "kg*m/m^1*kg", "N/N^1", "ft^1/ft", "m^3/m^2*m^1"];
+
 /// The spelling set S.
 pub fn spellings(tier: Tier) -> Vec<String> {
     let mut s: Vec<String> = Vec::new();
@@ -201,6 +205,20 @@ impl Prop for C02 {
                 }
             }
         }
+        // two spellings in which one unit name cancels against itself completely (with and without
+        // written powers, on either side of the `/`): both sides reduce to the same powers of the
+        // base dimensions - none -, so `+`, `-` and `to` between them must succeed, whichever
+        // spelling stands where. (Whether such a quantity also counts as a *plain number* next to a
+        // unit that does not cancel is not said and not judged.)
+        let cancels = |x: &str| units::unit_expr_flat(x).map(|f| units::cancels_to_nothing(&f)).unwrap_or(false);
+        for a in SELF_FULLY {
+            for b in SELF_FULLY {
+                assert!(cancels(a) && cancels(b), "machinery: the reference does not read {a} and {b} as cancelling");
+                sink(Case::with("self-cancelled", format!("3 {a} + 2 {b}"), serde_json::json!({"want": 5})));
+                sink(Case::with("self-cancelled", format!("3 {a} - 2 {b}"), serde_json::json!({"want": 1})));
+                sink(Case::with("self-cancelled", format!("3 {a} to {b}"), serde_json::json!({"want": 3})));
+            }
+        }
         for q in &s {
             sink(Case::with("plain-left", format!("2 + 1 {q}"), serde_json::json!({"q": q})));
             sink(Case::with("plain-right", format!("1 {q} + 2"), serde_json::json!({"q": q})));
@@ -235,6 +253,17 @@ impl Prop for C02 {
             Ok(r) => r,
             Err(why) => return fw::fail(format!("results:{}", case.fam), format!("{q}: {why}")),
         };
+        if case.fam == "self-cancelled" {
+            let want = BigRational::from_integer(BigInt::from(case.data["want"].as_i64().unwrap()));
+            return match &got {
+                Res::Err { msg, .. } => fw::fail("self-cancelled:refused", format!("{q}: both sides reduce to no base dimension at all, but the tool refuses: {msg}")),
+                Res::Ok { value, unit, .. } => match units::si_of(value, unit, false) {
+                    Err(e) => crate::units::table_verdict(format!("{q}: {e}")),
+                    Ok(si) if si.value == want && si.dim == tables::DIM0 => fw::pass(true, fw::hash_str(&si.short())),
+                    Ok(si) => fw::fail("self-cancelled:value", format!("{q}: expected {want} without dimension, got {} (displayed {})", si.short(), got.short())),
+                },
+            };
+        }
         if case.fam == "plain-to-to" {
             let (a, b) = (case.data["a"].as_str().unwrap(), case.data["b"].as_str().unwrap());
             let (ma, mb) = (meaning(a), meaning(b));
